@@ -33,7 +33,9 @@ ASSUMPTIONS = [
     "env and vm objects are stubs as in selftests/isolation/test_vm_network.py (get_vm/create_vm, name, params)",
     "subnets are pairwise disjoint or identical; overlapping subnets of different length are replaced at generation "
     "time and counted (extra.excluded_overlapping_candidates)",
-    "static addresses (and the optional host address) lie outside the DHCP range and are unique",
+    "static addresses (and the optional host address) lie outside the DHCP range and are unique; the only exception is "
+    "part D, where one nic statically holds the first address of a still unused range and is reattached within its "
+    "own subnet as the first allocation (it then gets its own address back, nothing is used twice)",
     "all interfaces of one subnet carry the same range/host/netdst parameters",
     "reattach_interface is driven without proxy_nic (the proxy-ARP mode duplicates an address on purpose and its "
     "source carries a TODO that it invalidates the netconfig) and only towards networks whose range still has a free "
@@ -229,6 +231,35 @@ abstract_ops = st.lists(
 @st.composite
 def plain_cases(draw):
     return {"config": draw(configs()), "ops": draw(abstract_ops)}
+
+
+@st.composite
+def own_subnet_reattach_cases(draw):
+    """Part D: a nic that holds the address the range hands out next is reattached inside its own subnet.
+
+    This is the one place where a static address inside the DHCP range is generated: the reattachment is the first
+    allocation from that range, so the unchanged code (detach, allocate, attach) gives the nic its own address back
+    and no address is ever used twice; further allocations and a drain follow.
+    """
+    prefix = draw(st.sampled_from([8, 16, 20, 24, 24, 26, 28]))
+    usable = 2 ** (32 - prefix) - 2
+    length = draw(st.integers(1, min(usable - 2, 12)))
+    start = draw(st.integers(2, min(usable - length, 300)))
+    base = int(ipaddress.ip_address(draw(st.sampled_from(["10.0.0.0", "172.16.0.0", "192.168.0.0"]))))
+    network = ipaddress.ip_network((base, prefix), strict=False)
+    client_nic, server_nic = draw(st.sampled_from(NICS)), draw(st.sampled_from(NICS))
+    client = {"nic": client_nic, "ip": str(network.network_address + start), "netmask": str(network.netmask), "subnet": 0,
+              "mac": "02:00:00:00:01:%02x" % NICS.index(client_nic)}
+    server = {"nic": server_nic, "ip": str(network.network_address + 1), "netmask": str(network.netmask), "subnet": 0,
+              "mac": "02:00:00:00:02:%02x" % NICS.index(server_nic)}
+    config = {"vms": [{"name": "vm1", "nics": [client]}, {"name": "vm2", "nics": [server]}],
+              "subnets": [{"cidr": str(network), "range": [start, start + length - 1], "explicit_range": True, "host": None,
+                           "netdst": "virbr0", "relation": "fresh"}],
+              "precreate": draw(st.booleans()), "expect": "ok", "replaced_candidates": 0}
+    steps = [["reattach", "vm1." + client_nic, "vm2." + server_nic]]
+    for _ in range(draw(st.integers(0, 3))):
+        steps.append([draw(st.sampled_from(["alloc", "alloc", "drain"])), 0])
+    return {"config": config, "steps": steps, "part": "D"}
 
 
 # ---------------------------------------------------------------------------
@@ -819,6 +850,12 @@ def run(ctx):
         ctx.case(case, True, ["C:prefix-length"])
 
     ctx.hyp(plain_cases(), body, ctx.budget(2000, 140000), name="network")
+
+    def body_own(case):
+        labels, nontrivial, _ = run_plain(ctx, impl, case)
+        ctx.case(case, True, [label for label in labels if "nontrivial" not in label] + ["D:reattach-within-own-subnet"])
+
+    ctx.hyp(own_subnet_reattach_cases(), body_own, ctx.budget(160, 8000), name="own-subnet")
     ctx.machine(make_machine(impl, ctx), ctx.budget(1000, 60000), steps=25, name="history")
 
 
